@@ -507,3 +507,17 @@ fn replay(_opts: &Opts, d: &Value, acc: &mut Acc) {
         k => acc.inconclusive.push(format!("unknown C10 replay kind {:?}", k)),
     }
 }
+
+/// libFuzzer entry: first byte selects program / control-flow / injected-VM generator
+pub fn fuzz_case(genome: &[u8], acc: &mut Acc) -> Vec<Failure> {
+    match genome.first().map(|b| b % 3) {
+        Some(0) => check_generated(&genome[1..], acc),
+        Some(1) => check_cf(&genome[1..], acc),
+        Some(_) => {
+            let mut g = G::new(&genome[1..]);
+            let p = gen_ins_seq(&mut g);
+            check_injected(&p, "fuzz", acc)
+        }
+        None => vec![],
+    }
+}
